@@ -69,13 +69,22 @@ def main(argv):
             results.append(res)
         dest = os.path.join(HERE, "seeded", "RESULTS.json")
     else:
+        from concurrent.futures import ThreadPoolExecutor
+        par = int(os.environ.get("VERIF_SELFTEST_PARALLEL", "1"))
+        todo = []
         for patch in sorted(glob.glob(os.path.join(HERE, "mutants", "C*-*.patch"))):
             prop = os.path.basename(patch)[:3]
             if ids and prop not in ids:
                 continue
-            res = one(patch, prop)
-            print(json.dumps(res)[:600], flush=True)
-            results.append(res)
+            todo.append((patch, prop))
+
+        def job(a):
+            res = one(a[0], a[1])
+            print(json.dumps(res)[:400], flush=True)
+            return res
+
+        with ThreadPoolExecutor(par) as ex:
+            results = list(ex.map(job, todo))
         dest = os.path.join(HERE, "mutants", "RESULTS.json")
     old = []
     if os.path.exists(dest) and ids:
